@@ -130,7 +130,7 @@ func checkC14(p *Prog, r *Report) {
 			default:
 				return
 			}
-			dst, _ := loadedField(stripConv(resolveCell(c.Common().Args[0]), false))
+			dst, _ := fieldBehind(c.Common().Args[0])
 			srcs, inTable := pipeSrcsOf(c.Common().Args[1], pipeFields)
 			if 0 == len(srcs) {
 				return
@@ -170,7 +170,7 @@ func checkC14(p *Prog, r *Report) {
 	for _, f := range withAnons(goFn) {
 		for _, cl := range findCopyLoops(f) {
 			srcs, _ := pipeSrcsOf(cl.Src, pipeFields)
-			dst, _ := loadedField(stripConv(resolveCell(cl.Dst), false))
+			dst, _ := fieldBehind(cl.Dst)
 			for which, pf := range pipeFields {
 				if !srcs[pf] {
 					continue
@@ -282,7 +282,7 @@ func checkC14(p *Prog, r *Report) {
 			if "(*io.PipeWriter).Close" != n && "(*io.PipeWriter).CloseWithError" != n {
 				return
 			}
-			if fv, _ := loadedField(cc.Args[0]); fv != outw {
+			if fv, _ := fieldBehind(cc.Args[0]); fv != outw {
 				return
 			}
 			nclose++
@@ -479,7 +479,7 @@ func (s pipeSrc) Name() string {
 func pipeSrcsOf(v ssa.Value, kept map[string]pipeSrc) (map[pipeSrc]bool, bool) {
 	out := map[pipeSrc]bool{}
 	rv := stripConv(resolveCell(stripConv(v, false)), false)
-	if fv, _ := loadedField(rv); nil != fv {
+	if fv, _ := fieldBehind(v); nil != fv {
 		out[pipeSrc{fv, -1}] = true
 		return out, false
 	}
